@@ -209,7 +209,7 @@ Qed.
 Lemma step_inv : forall dflt st o, (dflt = true -> default_duration o = true) -> inv dflt st -> inv dflt (step st o).
 Proof.
   intros dflt st o Hdd Hinv. pose proof Hinv as [Hlr Hg].
-  destruct o as [hg hsn hsc hf | level g dur snaps | level t snaps | g snaps | s | rs | rq rs | s | d]; unfold step.
+  destruct o as [hg hsn hsc hf | level g dur snaps | level t snaps | g snaps | s | rs | rq rs | au cs rs | cs sl | s | d]; unfold step.
   - exact Hinv.
   - split; [exact Hlr|]. cbn [st_gating st_lastref st_now]. apply hold_refresh_inv; [exact Hinv|].
     intros Hdf Hgs. specialize (Hdd Hdf). cbn [default_duration] in Hdd.
@@ -220,6 +220,8 @@ Proof.
   - split; [exact Hlr|]. cbn [st_gating st_lastref st_now]. eapply sub_gating_inv; [apply reset_sub | exact Hg].
   - split; [exact Hlr|]. cbn [st_gating st_lastref st_now]. eapply sub_gating_inv; [apply reset_many_sub | exact Hg].
   - split; [exact Hlr|]. cbn [st_gating st_lastref st_now]. eapply sub_gating_inv; [apply reset_many_sub | exact Hg].
+  - split; [exact Hlr|]. cbn [st_gating st_lastref st_now]. eapply sub_gating_inv; [apply reset_many_sub | exact Hg].
+  - exact Hinv.
   - split; cbn [st_gating st_lastref st_now].
     + intros x. destruct (x =? s)%N; [lia | apply Hlr].
     + intros s' g h Hget. destruct (Hg _ _ _ Hget) as [H1 [H2 H3]]. split; [exact H1|]. split; [|exact H3].
@@ -257,7 +259,7 @@ Qed.
 Lemma step_first : forall st o s g h,
   st_gating (step st o) s g = Some h -> h_first h = first_of (st_now st) (st_gating st) s g.
 Proof.
-  intros st o s g h. destruct o as [hg hsn hsc hf | level g0 dur snaps | level t snaps | g0 snaps | s0 | rs | rq rs | s0 | d]; unfold step;
+  intros st o s g h. destruct o as [hg hsn hsc hf | level g0 dur snaps | level t snaps | g0 snaps | s0 | rs | rq rs | au cs rs | cs sl | s0 | d]; unfold step;
     cbn [st_gating]; intros H.
   - unfold first_of. rewrite H. reflexivity.
   - eapply hold_refresh_first; exact H.
@@ -266,6 +268,8 @@ Proof.
   - apply reset_sub in H. unfold first_of. rewrite H. reflexivity.
   - apply reset_many_sub in H. unfold first_of. rewrite H. reflexivity.
   - apply reset_many_sub in H. unfold first_of. rewrite H. reflexivity.
+  - apply reset_many_sub in H. unfold first_of. rewrite H. reflexivity.
+  - unfold first_of. rewrite H. reflexivity.
   - unfold first_of. rewrite H. reflexivity.
   - unfold first_of. rewrite H. reflexivity.
 Qed.
@@ -418,7 +422,7 @@ Qed.
 Lemma step_sys_untouched : forall st o s, sys_untouched s o = true ->
   st_gating (step st o) s system = st_gating st s system.
 Proof.
-  intros st o s H. destruct o as [hg hsn hsc hf | level g dur snaps | level t snaps | g snaps | s0 | rs | rq rs | s0 | d]; unfold step; cbn [st_gating];
+  intros st o s H. destruct o as [hg hsn hsc hf | level g dur snaps | level t snaps | g snaps | s0 | rs | rq rs | au cs rs | cs sl | s0 | d]; unfold step; cbn [st_gating];
     try reflexivity; cbn [sys_untouched] in H.
   - assert (Hc : system <> g \/ ~ In s snaps).
     { apply orb_prop in H. destruct H as [H|H]; [left; intros <-; discriminate | right; rewrite <- mem_In; destruct (mem s snaps); [discriminate | discriminate]]. }
@@ -437,6 +441,8 @@ Proof.
     + destruct (system =? g)%N eqn:E; [apply N.eqb_eq in E; subst g; discriminate | reflexivity].
     + destruct snaps as [|x r]; [discriminate|]. destruct (mem s (x :: r)); [discriminate|]. rewrite andb_false_r. reflexivity.
   - unfold reset. cbn [N.eqb system negb]. rewrite andb_false_r. reflexivity.
+  - clear H. generalize (st_gating st). induction rs as [|x r IH]; intros gt; cbn [fold_left]; [reflexivity|].
+    rewrite IH. unfold reset. cbn [N.eqb system negb]. rewrite andb_false_r. reflexivity.
   - clear H. generalize (st_gating st). induction rs as [|x r IH]; intros gt; cbn [fold_left]; [reflexivity|].
     rewrite IH. unfold reset. cbn [N.eqb system negb]. rewrite andb_false_r. reflexivity.
   - clear H. generalize (st_gating st). induction rs as [|x r IH]; intros gt; cbn [fold_left]; [reflexivity|].
@@ -523,6 +529,56 @@ Proof.
   destruct (Z.eq_dec u (st_now st)) as [->|Hne].
   - destruct Hc as [Hc|Hc]; [contradiction|]. rewrite sys_until_now. f_equal. lia.
   - rewrite sys_until_exact by assumption. reflexivity.
+Qed.
+
+(* ------------------------------------------------------------------ which snaps a refresh of all snaps goes on with *)
+Theorem refresh_targets_spec : forall st level holders cands s,
+  In s (refresh_targets st level holders cands) <->
+  In s cands /\ forall g, In g holders -> effective st level s g = false.
+Proof.
+  intros st level holders cands s. unfold refresh_targets. rewrite filter_In, negb_true_iff. unfold held_by_any. split.
+  - intros [Hc He]. split; [exact Hc|]. intros g Hg. destruct (effective st level s g) eqn:E; [|reflexivity].
+    assert (existsb (fun g0 => effective st level s g0) holders = true) by (apply existsb_exists; exists g; split; assumption).
+    congruence.
+  - intros [Hc Hall]. split; [exact Hc|]. destruct (existsb _ holders) eqn:E; [|reflexivity].
+    apply existsb_exists in E. destruct E as [g [Hg He]]. rewrite (Hall g Hg) in He. discriminate.
+Qed.
+
+(* a snap with a hold that has not ended is not refreshed by a refresh of all snaps at a level the hold covers *)
+Theorem held_not_refreshed : forall st level holders cands s g h,
+  st_gating st s g = Some h -> In g holders -> (level <= h_level h)%N -> st_now st <= h_until h ->
+  (g = system \/ st_now st <= st_lastref st s + max_postponement) ->
+  ~ In s (refresh_targets st level holders cands).
+Proof.
+  intros st level holders cands s g h Hg Hin Hl Hu Hp Ht. apply refresh_targets_spec in Ht. destruct Ht as [_ Hall].
+  specialize (Hall g Hin). unfold effective in Hall. rewrite Hg in Hall.
+  destruct Hp as [->|Hp]; [cbn [N.eqb system negb andb] in Hall; lia|].
+  destruct (g =? system)%N; cbn [negb andb] in Hall; lia.
+Qed.
+
+(* a hold for auto-refreshes only does not keep the snap out of a general refresh of all snaps *)
+Theorem auto_level_hold_ignored_by_general_refresh : forall st s g h,
+  st_gating st s g = Some h -> h_level h = 0%N -> effective st 1 s g = false.
+Proof. intros st s g h Hg Hl. unfold effective. rewrite Hg, Hl. reflexivity. Qed.
+
+(* over every history: a candidate that an auto-refresh leaves out is either held by the administrator or within 90 days
+   of its last refresh (and, C15_other_48h, within 48 h of the start of the episode of every other snap holding it) *)
+Theorem auto_refresh_excluded_bound : forall lr0 now0 ops holders cands s,
+  (forall x, lr0 x <= now0) ->
+  let st := run (init_state lr0 now0) ops in
+  In s cands -> ~ In s (refresh_targets st 0 holders cands) ->
+  effective st 0 s system = true \/ st_now st <= st_lastref st s + ninety_days.
+Proof.
+  intros lr0 now0 ops holders cands s Hlr st Hc Hn.
+  assert (He : exists g, In g holders /\ effective st 0 s g = true).
+  { destruct (existsb (fun g => effective st 0 s g) holders) eqn:E.
+    - apply existsb_exists in E. exact E.
+    - exfalso. apply Hn. apply refresh_targets_spec. split; [exact Hc|]. intros g Hg.
+      destruct (effective st 0 s g) eqn:E2; [|reflexivity].
+      assert (existsb (fun g0 => effective st 0 s g0) holders = true) by (apply existsb_exists; exists g; split; assumption).
+      congruence. }
+  destruct He as [g [_ Hg]]. destruct (N.eq_dec g system) as [->|Hne]; [left; exact Hg|].
+  right. exact (any_90d lr0 now0 ops Hlr 0%N s g Hne Hg).
 Qed.
 
 (* ------------------------------------------------------------------ hook runs *)
